@@ -1,12 +1,60 @@
+import PatVerif.Basic
 import PatVerif.Hex
 import PatVerif.Generated.ScLimbs
-/-! Second driver (C14/C15 only): runs the *translated* limb code of `Generated/ScLimbs.lean` — the definitions
-`Proofs/ScReduce.lean` and `Proofs/ScMulAdd.lean` are about — on the scalar operations of the stream, so that the
-translator's reading of the Go source is itself compared with the implementation on every run. -/
+import PatVerif.Generated.FeLimbs
+/-! Second driver (C14/C15 only): runs the *translated* limb code of `Generated/ScLimbs.lean` and `Generated/FeLimbs.lean` — the
+definitions `Proofs/Sc*.lean` and `Proofs/Fe*.lean` are about — on the scalar and field operations of the stream, so that the
+translators' reading of the Go source is itself compared with the implementation on every run. -/
 open PatVerif PatVerif.Hex PatVerif.Generated.ScLimbs
 
 def asFn (b : Bytes) : Nat → Int := fun i => ((b.getD i 0).toNat : Int)
 def asBytes (l : List Int) : Bytes := l.map fun x => UInt8.ofNat x.toNat
+
+namespace Fe
+open PatVerif.Generated.FeLimbs
+
+def leNat : Bytes → Nat
+  | [] => 0
+  | b :: bs => b.toNat + 256 * leNat bs
+def leBytes : Nat → Nat → Bytes
+  | 0, _ => []
+  | n + 1, v => UInt8.ofNat (v % 256) :: leBytes n (v / 256)
+
+def limbsOf (b : Bytes) : Element :=
+  let w := fun i => leNat ((b.drop (8 * i)).take 8)
+  ⟨w 0, w 1, w 2, w 3, w 4⟩
+def limbsHex (e : Element) : String :=
+  hxv (leBytes 8 e.l0 ++ leBytes 8 e.l1 ++ leBytes 8 e.l2 ++ leBytes 8 e.l3 ++ leBytes 8 e.l4)
+def encHex (l : List Nat) : String := hxv (l.map UInt8.ofNat)
+
+/-- the operation of `field.VerifOp`, through the translated functions: (limbs of the result, integer result, encoding) -/
+def run (op : String) (a b : Element) (k : Nat) (x : Bytes) : Option (Element × Nat × List Nat) :=
+  let z : Element := ⟨0, 0, 0, 0, 0⟩
+  let fin := fun (v : Element) (n : Nat) => some (v, n, Bytes v)
+  match op with
+  | "mul" => fin (Multiply z a b) 0
+  | "sq" => fin (Square z a) 0
+  | "add" => fin (PatVerif.Generated.FeLimbs.Add z a b) 0
+  | "sub" => fin (Subtract z a b) 0
+  | "neg" => fin (Negate z a) 0
+  | "inv" => fin (Invert z a) 0
+  | "pow22523" => fin (Pow22523 z a) 0
+  | "mult32" => fin (Mult32 z a (k % 4294967296)) 0
+  | "abs" => fin (Absolute z a) 0
+  | "carry" => fin (carryPropagate (Set z a)) 0
+  | "reduce" => fin (reduce (Set z a)) 0
+  | "select" => fin (Select z a b k) 0
+  | "swap" => let r := Swap a b k; some (r.1, 0, Bytes r.2)
+  | "sqrtratio" => let r := SqrtRatio z a b; fin r.1 r.2
+  | "equal" => fin (Set z a) (Equal a b)
+  | "isneg" => fin (Set z a) (IsNegative a)
+  | "setbytes" =>
+    match SetBytes z (x.map UInt8.toNat) with
+    | .ok v => fin v 0
+    | _ => none
+  | "bytes" => fin (Set z a) 0
+  | _ => none
+end Fe
 
 def answer (line : String) : String :=
   match line.splitOn " " with
@@ -23,6 +71,19 @@ def answer (line : String) : String :=
     match parseV x with
     | some x => if x.length = 32 then (if isReduced (asFn x) then "1" else "0") else "-"
     | none => "-"
+  | [fe, op, a, b, k, x] =>
+    if fe = "c14.fe" ∨ fe = "c14.fel" then
+      match parseV a, parseV b, k.toNat?, parseV x with
+      | some a, some b, some k, some x =>
+        if a.length = 40 ∧ b.length = 40 then
+          match Fe.run op (Fe.limbsOf a) (Fe.limbsOf b) k x with
+          | some (v, n, enc) =>
+            if fe = "c14.fe" then "ok " ++ Fe.encHex enc ++ " " ++ toString n
+            else "ok " ++ Fe.limbsHex v ++ " " ++ toString n ++ " " ++ Fe.encHex enc
+          | none => "-"
+        else "-"
+      | _, _, _, _ => "-"
+    else "-"
   | _ => "-"
 
 partial def loop (h : IO.FS.Stream) (out : IO.FS.Stream) : IO Unit := do
